@@ -15,6 +15,11 @@ CHECKS = {
    note=NOTE + " C05: the parser loop is tied by correspondence (hand transcription), the table by translation; text/scanner is not modelled.",
    technique="Coq proof (table by reflection on go2v output, Pratt loop soundness/completeness) + correspondence + differential against go/parser",
    ref="DESIGN.md section 5 C05"),
+ "C10": dict(
+   text="Theorems c10_refine (lookups see the latest write, zero value + ok=false for missing keys, len), c10_inv (each live key listed exactly once, for every history and every maps.Keys order) and c10_range (Go's range contract under arbitrary mutation in the loop body), for all histories, proved on Model/OMap.v. Correspondence: histories with nested mutation during range through the host Value API, model run by vm_compute; system level: generated scripts over int/string/bool/float/uint8 keys replayed against a native Go map.",
+   note=NOTE + " C10: OMap.v is a hand transcription of stringMap/numericMap (tie by correspondence); Go's built-in map and maps.Keys are assumed to be a finite map and a permutation of its keys.",
+   technique="Coq proof by invariant + refinement over all operation histories; vm_compute correspondence; differential against native Go maps",
+   ref="DESIGN.md section 5 C10"),
 }
 NOT_APPLICABLE = []
 def main():
